@@ -1,6 +1,7 @@
 //! C08: name / object path validators. Exhaustive short strings over a representative alphabet,
 //! every Unicode scalar value in first and later position, length boundaries; through
-//! params::validate_*, ObjectPath::new and the header name checks of wire::marshal::marshal.
+//! params::validate_*, ObjectPath::new, the header name checks of wire::marshal::marshal, the Param API's owned and
+//! borrowed object path variants and the three decoders on a hand-written 'o'.
 use vcore::common::*;
 use rustbus::message_builder::{MarshalledMessage, MessageBuilder};
 use rustbus::params;
@@ -70,6 +71,34 @@ fn via_api(kind: &str, s: &str) -> bool {
             let mut buf = Vec::new();
             let m = rustbus::wire::marshal::marshal(&msg, NonZeroU32::new(1).unwrap(), &mut buf).is_ok();
             assert_eq!(w, m, "ObjectPath::new and marshal disagree on {:?}", s);
+            // every other place that takes or hands out an object path: the Param API (owned and borrowed
+            // variant), and the three decoders on a hand-written encoding of the string as an 'o'
+            use rustbus::params::{Base, Param};
+            use rustbus::wire::marshal::MarshalContext;
+            let via_param = |p: Param| -> bool {
+                let mut b = Vec::new();
+                let mut f = Vec::new();
+                let mut ctx = MarshalContext { buf: &mut b, fds: &mut f, byteorder: rustbus::ByteOrder::LittleEndian };
+                rustbus::wire::marshal::container::marshal_param(&p, &mut ctx).is_ok()
+            };
+            let nul = s.contains('\0');
+            let p_owned = via_param(Param::Base(Base::ObjectPath(s.to_string())));
+            let p_ref = via_param(Param::Base(Base::ObjectPathRef(s)));
+            assert_eq!((p_owned, p_ref), (m, m), "Param::Base::ObjectPath / ObjectPathRef (owned, borrowed) marshalled={:?}, the validator says {} for {:?}", (p_owned, p_ref), m, s);
+            if !nul {
+                let mut enc = (s.len() as u32).to_le_bytes().to_vec();
+                enc.extend_from_slice(s.as_bytes());
+                enc.push(0);
+                let ty = vcore::val::Ty::parse("o").unwrap();
+                let d_raw = vcore::eng_wire::dec_validate(rustbus::ByteOrder::LittleEndian, 0, &enc, &ty).is_ok();
+                let d_par = vcore::eng_wire::dec_param(rustbus::ByteOrder::LittleEndian, 0, &enc, &ty).is_ok();
+                let d_typ = vcore::eng_wire::guard(|| {
+                    let mut ctx = rustbus::wire::unmarshal_context::UnmarshalContext::new(&[], rustbus::ByteOrder::LittleEndian, &enc, 0);
+                    <ObjectPath<&str> as rustbus::Unmarshal>::unmarshal(&mut ctx).is_ok()
+                })
+                .unwrap_or(false);
+                assert_eq!((d_raw, d_par, d_typ), (m, m, m), "decoders (raw validation, Param, typed) accept={:?} an 'o' holding {:?}, the validator says {}", (d_raw, d_par, d_typ), s, m);
+            }
             m
         }
         "iface" => {
@@ -110,14 +139,19 @@ fn one(out: &mut Out, kind: &str, s: &str, api: bool) {
     if v != spec(kind, s) {
         out.violation(&req, &format!("validate_{}({:?}) = {} but the specification says {}", kind, s, v, !v));
     }
-    if api && via_api(kind, s) != v {
-        out.violation(&req, &format!("marshal/ObjectPath::new verdict differs from validate_{} on {:?}", kind, s));
+    if api {
+        match vcore::eng_wire::guard(|| via_api(kind, s)) {
+            Ok(a) if a == v => {}
+            Ok(_) => out.violation(&req, &format!("marshal/ObjectPath::new verdict differs from validate_{} on {:?}", kind, s)),
+            Err(p) => out.violation(&req, &format!("the places that validate a {} disagree: {}", kind, p)),
+        }
     }
     out.hit(if v { "accepted" } else { "rejected" });
     out.case(&req, if v { "ok" } else { "reject" }, true);
 }
 
 pub fn run(cfg: &Cfg) {
+    std::panic::set_hook(Box::new(|_| {}));
     let mut out = Out::new(&cfg.outdir);
     let mut rng = Prng::new(cfg.seed);
     let alphabet: Vec<char> = vec!['a', 'Z', '0', '9', '_', '-', '.', ':', '/', 'é', '٣', '\0', ' '];
